@@ -385,6 +385,13 @@ NoWaiterAfterExit == exited => \A k \in Calls : cst[k] # "wait" \/ Len(ready[k])
 \* C08: after a reconnect completed (quiescent, healthy) no sink of an older connection is still open
 NoStaleOpenSink == Quiescent => \A k \in Subs : (sinkSt[k] = "open" /\ cst[k] = "done" /\ cres[k] = Ok(k)) =>
                                    \E h \in chanH : h[2] = k /\ \E c \in srvCh[gen] : c[1] = h[1] /\ c[2] = k
+\* C07: on a healthy link a stream whose handler closed it arrives complete
+StreamComplete == \A k \in Subs : (faults = 0 /\ ~stopped /\ ~cancelled[k] /\ sinkSt[k] = "done") => Len(recv[k]) = NVals
+\* C06 liveness: on a healthy link a cancellation issued while the handler runs reaches it (or the handler has finished)
+CancelReachesHandler == \A k \in Unary : (cancelled[k] /\ cst[k] = "wait") ~> (srvCtx[k] = "cancelled" \/ cst[k] = "done" \/ \A g \in Gens : k \notin srvRun[g])
+\* C08 liveness: a channel that was handed out is eventually closed once the stream is over for whatever reason
+\* (a sink registered for a call that already got the connection error is never handed to anybody: the caller received a nil channel)
+ChannelsTerminate == \A k \in Subs : (sinkSt[k] = "open" /\ cst[k] = "done" /\ cres[k] = Ok(k)) ~> (sinkSt[k] = "done")
 \* liveness (FairSpec, no state constraint): every started call returns; every handed-out channel is eventually closed once its stream ended
 EveryCallReturns == \A k \in Calls : (cst[k] # "idle") ~> (cst[k] \in {"done", "idle"})
 =============================================================================
